@@ -82,3 +82,163 @@ spec('EDsum', z3=_edsum, py=_py_edsum, doc='padded Euclidean partial sum of the 
 spec('vsqrt', z3=lambda ex, st, x: vsqrt(vlit(x)), py=lambda ex, st, x: __import__('math').sqrt(x))
 spec('maxi', z3=lambda ex, st, a, b: z3.If(zint(a) > zint(b), zint(a), zint(b)), py=lambda ex, st, a, b: max(a, b))
 spec('mini', z3=lambda ex, st, a, b: z3.If(zint(a) < zint(b), zint(a), zint(b)), py=lambda ex, st, a, b: min(a, b))
+
+
+# ---------------------------------------------------------------------------------------------
+# Multivariate Euclidean distance: point i of a series with ndim dimensions is the slice
+# a[o + i*ndim .. o + (i+1)*ndim); the point distance is the sum over dimensions (squared) or its
+# square root (euclidean), accumulated left to right from 0.
+def _inner_body(rec, a1, b1, a2, b2, j):
+    d = vsub(z3.Select(a1, b1 + j - 1), z3.Select(a2, b2 + j - 1))
+    return z3.If(j <= 0, vzero, vadd(rec(a1, b1, a2, b2, j - 1), vmul(d, d)))
+
+
+InnerNdf, innernd_axioms = fuel_function('InnerNd', [AV, IntS, AV, IntS, IntS], Val, _inner_body)
+
+
+def _ednd_body(rec, a1, o1, n1, a2, o2, n2, nd, metric, k):
+    b1 = o1 + _clamp(k - 1, n1) * nd
+    b2 = o2 + _clamp(k - 1, n2) * nd
+    t = InnerNdf(a1, b1, a2, b2, nd)
+    t = z3.If(metric == 0, t, vsqrt(t))
+    return z3.If(k <= 0, vzero, vadd(rec(a1, o1, n1, a2, o2, n2, nd, metric, k - 1), t))
+
+
+EDsumNdf, edsumnd_axioms = fuel_function('EDsumNd', [AV, IntS, IntS, AV, IntS, IntS, IntS, IntS, IntS], Val, _ednd_body)
+
+
+def _innernd(ex, st, s1, b1, s2, b2, j):
+    a1, o1 = series_parts(ex, st, s1)
+    a2, o2 = series_parts(ex, st, s2)
+    return InnerNdf(a1, o1 + zint(b1), a2, o2 + zint(b2), zint(j))
+
+
+def _edsumnd(ex, st, s1, n1, s2, n2, nd, metric, k):
+    a1, o1 = series_parts(ex, st, s1)
+    a2, o2 = series_parts(ex, st, s2)
+    return EDsumNdf(a1, o1, zint(n1), a2, o2, zint(n2), zint(nd), zint(metric), zint(k))
+
+
+def _py_innernd(ex, st, s1, b1, s2, b2, j):
+    a, b = _py_items(ex, st, s1), _py_items(ex, st, s2)
+    t = 0
+    for d in range(j):
+        t = t + (a[b1 + d] - b[b2 + d]) * (a[b1 + d] - b[b2 + d])
+    return t
+
+
+def _py_edsumnd(ex, st, s1, n1, s2, n2, nd, metric, k):
+    import math
+    t = 0
+    for i in range(k):
+        x = _py_innernd(ex, st, s1, min(i, n1 - 1) * nd, s2, min(i, n2 - 1) * nd, nd)
+        t = t + (x if metric == 0 else math.sqrt(x))
+    return t
+
+
+spec('InnerNd', z3=_innernd, py=_py_innernd, doc='sum over the first j dimensions of the squared differences of two points')
+spec('EDsumNd', z3=_edsumnd, py=_py_edsumnd, doc='padded multivariate Euclidean partial sum of the first k points')
+THEORIES['bounds'] = lambda: edsum_axioms() + pow2_axiom() + innernd_axioms() + edsumnd_axioms()
+
+
+# ---------------------------------------------------------------------------------------------
+# LB_Keogh.  Row i of the band (DTWSettings.window: "maximal shift from the two diagonals smaller
+# than this number") holds the columns j with  i - max(0,l1-l2) - w < j < i + max(0,l2-l1) + w,
+# 0 <= j < l2, i.e. [JS(i), JE(i)).  U_i / L_i are the maximum / minimum of s2 over that window,
+# folded left to right (the first extremal element wins, as Python's max/min and the C loops do).
+from dvc.vals import vlt, vinf, vninf
+
+
+def max2(x, y):
+    return z3.If(vlt(x, y), y, x)
+
+
+def min2(x, y):
+    return z3.If(vlt(y, x), y, x)
+
+
+WinMaxf, winmax_axioms = fuel_function(
+    'WinMax', [AV, IntS, IntS], Val,
+    lambda rec, a, lo, hi: z3.If(hi <= lo + 1, z3.Select(a, lo), max2(rec(a, lo, hi - 1), z3.Select(a, hi - 1))))
+WinMinf, winmin_axioms = fuel_function(
+    'WinMin', [AV, IntS, IntS], Val,
+    lambda rec, a, lo, hi: z3.If(hi <= lo + 1, z3.Select(a, lo), min2(rec(a, lo, hi - 1), z3.Select(a, hi - 1))))
+
+
+def JS(i, l1, l2, w):
+    d1 = z3.If(l1 > l2, l1 - l2, 0)
+    x = i - d1 - w + 1
+    return z3.If(x > 0, x, 0)
+
+
+def JE(i, l1, l2, w):
+    d2 = z3.If(l2 > l1, l2 - l1, 0)
+    x = i + d2 + w
+    return z3.If(x < l2, x, l2)
+
+
+def _lbsum_body(rec, a1, o1, l1, a2, o2, l2, w, metric, k):
+    i = k - 1
+    prev = rec(a1, o1, l1, a2, o2, l2, w, metric, k - 1)
+    lo = o2 + JS(i, l1, l2, w)
+    hi = o2 + JE(i, l1, l2, w)
+    U = WinMaxf(a2, lo, hi)
+    L = WinMinf(a2, lo, hi)
+    ci = z3.Select(a1, o1 + i)
+    return z3.If(k <= 0, vzero,
+                 z3.If(vlt(U, ci), vadd(prev, idist_term(metric, ci, U)),
+                       z3.If(vlt(ci, L), vadd(prev, idist_term(metric, ci, L)), prev)))
+
+
+LBsumf, lbsum_axioms = fuel_function('LBsum', [AV, IntS, IntS, AV, IntS, IntS, IntS, IntS, IntS], Val, _lbsum_body)
+
+
+def float_sym_axioms():
+    """IEEE facts (round-to-nearest is sign-symmetric): (a-b)*(a-b) == (b-a)*(b-a); |a-b| == b-a for a < b."""
+    a, b = z3.Consts('fs_a fs_b', Val)
+    return [z3.ForAll([a, b], vmul(vsub(a, b), vsub(a, b)) == vmul(vsub(b, a), vsub(b, a)),
+                      patterns=[vmul(vsub(a, b), vsub(a, b))]),
+            z3.ForAll([a, b], z3.Implies(vlt(a, b), vabs(vsub(a, b)) == vsub(b, a)), patterns=[vabs(vsub(a, b))])]
+
+
+def _lbsum(ex, st, s1, l1, s2, l2, w, metric, k):
+    a1, o1 = series_parts(ex, st, s1)
+    a2, o2 = series_parts(ex, st, s2)
+    return LBsumf(a1, o1, zint(l1), a2, o2, zint(l2), zint(w), zint(metric), zint(k))
+
+
+def _winmax(ex, st, s, lo, hi):
+    a, o = series_parts(ex, st, s)
+    return WinMaxf(a, o + zint(lo), o + zint(hi))
+
+
+def _winmin(ex, st, s, lo, hi):
+    a, o = series_parts(ex, st, s)
+    return WinMinf(a, o + zint(lo), o + zint(hi))
+
+
+def _py_lbsum(ex, st, s1, l1, s2, l2, w, metric, k):
+    a, b = _py_items(ex, st, s1), _py_items(ex, st, s2)
+    t = 0
+    for i in range(k):
+        # straight from the band definition
+        cols = [j for j in range(l2) if i - max(0, l1 - l2) - w < j < i + max(0, l2 - l1) + w]
+        U = max(b[j] for j in cols)
+        L = min(b[j] for j in cols)
+        if a[i] > U:
+            t = t + ((a[i] - U) ** 2 if metric == 0 else abs(a[i] - U))
+        elif a[i] < L:
+            t = t + ((a[i] - L) ** 2 if metric == 0 else abs(a[i] - L))
+    return t
+
+
+spec('LBsum', z3=_lbsum, py=_py_lbsum, doc='LB_Keogh partial sum over the first k elements of s1')
+spec('WinMax', z3=_winmax, py=lambda ex, st, s, lo, hi: max(_py_items(ex, st, s)[lo:hi]))
+spec('WinMin', z3=_winmin, py=lambda ex, st, s, lo, hi: min(_py_items(ex, st, s)[lo:hi]))
+spec('JSrow', z3=lambda ex, st, i, l1, l2, w: JS(zint(i), zint(l1), zint(l2), zint(w)),
+     py=lambda ex, st, i, l1, l2, w: max(0, i - max(0, l1 - l2) - w + 1))
+spec('JErow', z3=lambda ex, st, i, l1, l2, w: JE(zint(i), zint(l1), zint(l2), zint(w)),
+     py=lambda ex, st, i, l1, l2, w: min(l2, i + max(0, l2 - l1) + w))
+spec('vneginf', z3=lambda ex, st: vninf, py=lambda ex, st: float('-inf'))
+THEORIES['bounds'] = lambda: (edsum_axioms() + pow2_axiom() + innernd_axioms() + edsumnd_axioms() + winmax_axioms()
+                              + winmin_axioms() + lbsum_axioms() + float_sym_axioms())
